@@ -61,8 +61,7 @@ func (d *deduplicator) notifyDKGStarted(
 	cacheKey := newDKGSeed.Text(16)
 	// If the key is not in the cache, that means the seed was not handled
 	// yet and the client should proceed with the execution.
-	if !d.dkgSeedCache.Has(cacheKey) {
-		d.dkgSeedCache.Add(cacheKey)
+	if d.dkgSeedCache.Add(cacheKey) {
 		return true
 	}
 
@@ -87,8 +86,7 @@ func (d *deduplicator) notifyDKGResultSubmitted(
 
 	// If the key is not in the cache, that means the result was not handled
 	// yet and the client should proceed with the execution.
-	if !d.dkgResultHashCache.Has(cacheKey) {
-		d.dkgResultHashCache.Add(cacheKey)
+	if d.dkgResultHashCache.Add(cacheKey) {
 		return true
 	}
 
@@ -107,8 +105,7 @@ func (d *deduplicator) notifyWalletClosed(
 
 	// If the key is not in the cache, that means the wallet closure was not
 	// handled yet and the client should proceed with the execution.
-	if !d.walletClosedCache.Has(cacheKey) {
-		d.walletClosedCache.Add(cacheKey)
+	if d.walletClosedCache.Add(cacheKey) {
 		return true
 	}
 
